@@ -855,6 +855,9 @@ func c18ImplErrs(errs []error) []refErr {
 	for _, e := range errs {
 		ep, em, _ := errFields(e)
 		path := ep
+		if path == "" {
+			path = "/" // (an error about the top of the tree: the path of the root is printed as the empty string)
+		}
 		kind, name := "other:"+core.Trunc(em, 60), ""
 		switch {
 		case strings.Contains(em, "Missing mandatory node requires one of"):
@@ -885,14 +888,31 @@ type c18Case struct {
 	sn     *snode
 	trees  []*dnode
 	labels []string
+	// flat: the nodes stand at the top of the module (and of the data tree), not in a container c18
+	flat bool
 }
 
 func c18Gen(seed int64, idx int) *c18Case {
 	r := core.CaseRng(seed, "C18", idx)
 	m, sn := c18GenSchema(r)
-	c := &c18Case{mod: m, sn: sn}
+	c := &c18Case{mod: m, sn: sn, flat: idx%4 == 3}
+	if c.flat {
+		var kids []*yang.Stmt
+		for _, k := range m.Kids {
+			if k.Kw == "container" && k.Arg == "c18" {
+				kids = append(kids, k.Kids...)
+			} else {
+				kids = append(kids, k)
+			}
+		}
+		m.Kids = kids
+	}
 	add := func(t *dnode, label string) {
-		c.trees = append(c.trees, &dnode{name: "data", kids: []*dnode{t}})
+		if c.flat {
+			c.trees = append(c.trees, &dnode{name: "data", kids: t.kids})
+		} else {
+			c.trees = append(c.trees, &dnode{name: "data", kids: []*dnode{t}})
+		}
 		c.labels = append(c.labels, label)
 	}
 	for v := 0; v < 3; v++ {
@@ -1030,6 +1050,10 @@ func (p *c18) Run(tier string, seed int64, idx int) core.CaseResult {
 		return res
 	}
 	root := &snode{kw: "container", name: "", kids: []*snode{c.sn}}
+	if c.flat {
+		root.kids = c.sn.kids
+		res.Ev("schemas_with_nodes_at_module_level", 1)
+	}
 	for i, t := range c.trees {
 		in := fmt.Sprintf("%s---- data tree (%s)\n%s", text, c.labels[i], t.str())
 		res.Key(in)
